@@ -165,8 +165,11 @@ C01_Mode(e, p, m, m2, M) == m2.rel = e.rep.rel /\ e.rep.srel = e.rep.rel
 
 -----------------------------------------------------------------------------
 (* C02 -- interlocks                                                        *)
+\* machine states around every line of a call, computed once: PrefixStates(m, lines)[i] is the state before line i
+PrefixStates(m, lines) == FoldLeft(LAMBDA acc, ln : Append(acc, ExecLine(acc[Len(acc)], ln.ws)), <<m>>, lines)
 C02_Safe(e, p, m, m2, M) ==
-  \A i \in DOMAIN e.lines : ~Unsafe(Before(m, e.lines, i), e.lines[i].ws)
+  LET ms == PrefixStates(m, e.lines) IN
+  \A i \in DOMAIN e.lines : ~Unsafe(ms[i], e.lines[i].ws)
 WouldBeUnsafe(e, p) ==
   \/ e.call \in ToolGuarded /\ p.tool
   \/ e.call \in CoolGuarded /\ p.coolact
@@ -205,8 +208,8 @@ LineInBounds(mb, ma, ws, b, M) ==
            /\ 2 * (b.axes.lo[AxIdx[a]] - tv) <= sl
            /\ 2 * (tv - b.axes.hi[AxIdx[a]]) <= sl
 C03_Words(e, p, m, m2, M) ==
-  \A i \in DOMAIN e.lines :
-     LineInBounds(Before(m, e.lines, i), Before(m, e.lines, i + 1), e.lines[i].ws, p.bounds, M)
+  LET ms == PrefixStates(m, e.lines) IN
+  \A i \in DOMAIN e.lines : LineInBounds(ms[i], ms[i + 1], e.lines[i].ws, p.bounds, M)
 C03_Reject_Ante(e, p, m, m2, M) == e.call \notin TracerCalls /\ e.call # "set_bounds" /\ MustRejectValue(e, p, M)
 C03_Reject(e, p, m, m2, M) == C03_Reject_Ante(e, p, m, m2, M) => Rejected(e)
 C03_NaN(e, p, m, m2, M) ==
@@ -286,18 +289,20 @@ C20_Count(e, p, m, m2, M) ==
   (e.ph /\ e.out = "ok") => Len(e.hooks) = Cardinality(G1Lines(e))
 C20_Geometry(e, p, m, m2, M) ==
   (e.ph /\ e.out = "ok" /\ ~M.xf /\ Len(e.hooks) = Cardinality(G1Lines(e))) =>
+    LET ms == PrefixStates(m, e.lines)  g1 == G1Seq(e) IN
     \A j \in 1..Len(e.hooks) :
-       LET i  == G1Seq(e)[j]
-           mb == Before(m, e.lines, i)
-           ma == Before(m, e.lines, i + 1)
+       LET i  == g1[j]
+           mb == ms[i]
+           ma == ms[i + 1]
            h  == e.hooks[j] IN
        \A a \in AxisSet :
           /\ mb.known[a] => (h.o[AxIdx[a]].k = "n" /\ 2 * Abs(h.o[AxIdx[a]].v - mb.pos[a]) <= SlackOf(M, mb, a))
           /\ ma.known[a] => (h.t[AxIdx[a]].k = "n" /\ 2 * Abs(h.t[AxIdx[a]].v - ma.pos[a]) <= SlackOf(M, ma, a))
 C20_Params(e, p, m, m2, M) ==
   (e.ph /\ e.out = "ok" /\ Len(e.hooks) = Cardinality(G1Lines(e))) =>
+    LET g1 == G1Seq(e) IN
     \A j \in 1..Len(e.hooks) :
-       LET i == G1Seq(e)[j]  ws == e.lines[i].ws  h == e.hooks[j] IN
+       LET i == g1[j]  ws == e.lines[i].ws  h == e.hooks[j] IN
        \A pl \in ParamLetters :
           IF h.pout[pl].k = "n" THEN HasW(ws, pl) /\ Near(h.pout[pl], ValW(ws, pl))
           ELSE ~HasW(ws, pl)
